@@ -11,3 +11,8 @@ need hypothesis || "$PY" -m pip install -q --no-index --find-links "$WH" --targe
 need jsonschema || "$PY" -m pip install -q --no-index --find-links "$WH" --target .deps jsonschema >/dev/null 2>&1 || echo "note: jsonschema unavailable, evidence validated by built-in rules"
 need atheris    || "$PY" -m pip install -q --no-index --find-links "$WH" --target .deps --no-deps atheris >/dev/null 2>&1 || echo "note: atheris unavailable, C11 fuzz tier falls back to Hypothesis only"
 PYTHONPATH="${VERIF_REPO:-/repo}:$PWD:$PWD/.deps" "$PY" -c "import hypothesis, sweetpea, vp.cli; print('setup ok: hypothesis', hypothesis.__version__)" 2>/dev/null || { echo "setup failed"; exit 2; }
+PYTHONPATH="${VERIF_REPO:-/repo}:$PWD:$PWD/.deps" "$PY" -c "
+from vp import fixtures
+errs = fixtures.selftest()
+print('reference self-test:', 'ok (%d fixtures)' % len(fixtures.fixtures()) if not errs else errs)
+raise SystemExit(2 if errs else 0)" || exit 2
